@@ -84,6 +84,25 @@ void explore06(Options const& o, std::vector<Shim*> const& shims, std::vector<Sh
       rec.add_states(X.size(), 2 * X.size(), X.size());
       }
     }
+    // comparisons applied directly to the results of two calls in one inlined scope: floor/ceil/-x/abs of a and b
+    {
+    int c_res = rec.cls("C06.comparison_of_two_fresh_results_wrong");
+    std::vector<i64> P; for( i64 x : Sc ) if( fx_finite(x) ) P.push_back(x);
+    for( int op : { U_FLOOR, U_CEIL, U_NEG, U_ABS } )
+      {
+      std::vector<i64> R1(P.size()); for( size_t i = 0; i < P.size(); ++i ) R1[i] = s->fm_un(op, P[i]);
+      parallel_blocks(P.size(), o.threads, [&](size_t ia, int) {
+        LocalViol lv(rec);
+        for( size_t ib = 0; ib < P.size(); ++ib ) for( int k = 0; k < 6; ++k )
+          {
+          i64 g = s->fm_cmp_results(op, k, P[ia], P[ib]); bool e = cmp_model(k, R1[ia], R1[ib]);
+          if( (g != 0) != e ) { i64 a = P[ia], b = P[ib], r1 = R1[ia], r2 = R1[ib]; lv.hit(c_res, ob | (14ull << 48) | (static_cast<u64>(op) << 40) | ((ia * P.size() + ib) * 8 + static_cast<u64>(k)), [=]{ return ex1(s, std::string("f(a) ") + CMPN[k] + " f(b)", op == U_FLOOR ? "f = floor, one scope" : op == U_CEIL ? "f = ceil, one scope" : op == U_NEG ? "f = unary minus, one scope" : "f = abs, one scope",
+              {{"a",to_s(a)},{"b",to_s(b)}}, std::string(e ? "true" : "false") + " (f(a) = " + to_s(r1) + ", f(b) = " + to_s(r2) + ")", to_s(g), "cmpres", {to_s(op), to_s(k), to_s(a), to_s(b)}); }); }
+          }
+        });
+      u64 n = static_cast<u64>(P.size()) * P.size() * 6; rec.add_states(n, n, n);
+      }
+    }
     // the same object negated / abs'ed / isnan'ed twice in one function with an assignment in between
     {
     int c_seq = rec.cls("C06.second_call_on_modified_object_wrong");
@@ -125,6 +144,10 @@ void replay06(Options const& o, Shim* s, Recorder& rec)
   DirectViol d{rec};
   if( o.rcase == "cmp" ) { int k = static_cast<int>(parse_i64(o.rin.at(0))); i64 a = parse_i64(o.rin.at(1)), b = parse_i64(o.rin.at(2)); c.cmp(s, k, a, b, s->fm_bin(CMPS[k], a, b), 0, d); }
   else if( o.rcase == "un" ) { int op = static_cast<int>(parse_i64(o.rin.at(0))); i64 x = parse_i64(o.rin.at(1)); c.un(s, op, x, s->fm_un(op, x), 0, d); }
+  else if( o.rcase == "cmpres" )
+    { int op = static_cast<int>(parse_i64(o.rin.at(0))), k = static_cast<int>(parse_i64(o.rin.at(1))); i64 a = parse_i64(o.rin.at(2)), b = parse_i64(o.rin.at(3));
+      i64 g = s->fm_cmp_results(op, k, a, b); bool e = cmp_model(k, s->fm_un(op, a), s->fm_un(op, b));
+      if( (g != 0) != e ) rec.viol(rec.cls("C06.comparison_of_two_fresh_results_wrong"), 0, [&]{ return ex1(s, "f(a) cmp f(b) in one scope", "", {{"a",to_s(a)},{"b",to_s(b)}}, e ? "true" : "false", to_s(g), o.rcase, o.rin); }); }
   else if( o.rcase == "sequn" )
     { int op = static_cast<int>(parse_i64(o.rin.at(0))); i64 a = parse_i64(o.rin.at(1)), b = parse_i64(o.rin.at(2)); i64 r1 = 0, r2 = 0; s->fm_seq_un(op, a, b, &r1, &r2);
       auto model = [&](i64 x) -> i64 { return op == U_NEG ? -x : op == U_ABS ? (x < 0 ? -x : x) : (fx_isnan(x) ? 1 : 0); };
@@ -233,6 +256,7 @@ void explore18(Options const& o, std::vector<Shim*> const& shims, std::vector<Sh
   bool th = o.tier == "thorough";
   std::vector<i64> S = th ? S_set(8,6) : S_set(6,4);
   std::vector<i64> Sa = th ? S_set(5,3) : S_set(4,2);
+  std::vector<i64> Sand = th ? S_set(5,3,true,true) : S_set(4,2,true,true);      // '&' is defined on all pairs of raw values, the NaN patterns and INT64_MIN included
   std::vector<int> R { INT32_MIN, INT32_MIN + 1, -65536, -65535, -(1<<30) };
   for( int r = -130; r <= 63; ++r ) R.push_back(r);
   std::vector<i64> X16 { 0, 1, -1, 65536, -65536, FX_MAX, FX_LOWEST, 0x5555555555555555ll, -0x5555555555555555ll, 1ll<<62, -(1ll<<62),
@@ -297,7 +321,7 @@ void explore18(Options const& o, std::vector<Shim*> const& shims, std::vector<Sh
         }
       }
     }
-    sweep_pairs(s, B_AND, Sa, Sa, o.threads, rec, ob | (3ull << 48), [&](i64 a, i64 b, i64 got, u64 ord, LocalViol& lv) {
+    sweep_pairs(s, B_AND, Sand, Sand, o.threads, rec, ob | (3ull << 48), [&](i64 a, i64 b, i64 got, u64 ord, LocalViol& lv) {
       if( got != (a & b) ) lv.hit(c.c_and, ord, [=]{ return ex1(s, "operator &", "", {{"a",to_s(a)},{"b",to_s(b)}}, to_s(a & b), to_s(got), "and", {to_s(a), to_s(b)}); }); });
     }
   rec.sample("(-1 raw) >> 63 = " + to_s(shims[0]->fm_shift(0, -1, 63)) + "; (65536 raw) << 47 = " + to_s(shims[0]->fm_shift(1, 65536, 47)) + "; x << -1 = " + to_s(shims[0]->fm_shift(1, 5, -1)));
